@@ -108,21 +108,26 @@ func C03(c *Ctx) {
 		{"C03/R2", "airgapped.signing-handler:tasks-source", [3]string{"airgapped", "Machine", "handleStateSigningAwaitPartialSigns"}, "fsm/types/requests.TasksToMessages", 0, `^json\(json\(o\.Payload\)\.SrcPayload\)$`, "the signer expands the tasks carried by the operation", "other tasks"},
 		{"C03/R2", "node.processSignatureProposal:tasks-source", [3]string{pkgNode, "BaseNodeService", "processSignatureProposal"}, "fsm/types/requests.TasksToMessages", 0, `^json\(message\.Data\)\.SigningTasks$`, "the node expands the tasks of the board proposal", "other tasks"},
 	})
-	// the signer returns what it computed for these bytes, nothing remembered from elsewhere
-	if fn := c.Fn("C03/R2", "airgapped", "Machine", "createPartialSign"); fn != nil {
+	// the signer stores what it computed for these bytes, nothing remembered from elsewhere (createPartialSign is
+	// expanded into the handler — load.flatten —, so its success returns are the alternatives of the stored value)
+	if fn := c.Fn("C03/R2", "airgapped", "Machine", "handleStateSigningAwaitPartialSigns"); fn != nil {
 		bad := ""
 		n := 0
-		for _, ret := range ssax.Returns(fn) {
-			if len(ret.Results) != 2 || ret.Block() == fn.Recover {
-				continue
+		ssax.Instrs(fn, func(in ssa.Instruction) {
+			st, ok := in.(*ssa.Store)
+			if !ok {
+				return
 			}
-			for _, lf := range ssax.Leaves(ret.Results[0], ret) {
+			fa, ok := st.Addr.(*ssa.FieldAddr)
+			if !ok || ssax.FieldOf(fa) == nil || ssax.FieldOf(fa).Name() != "Sign" || ssax.OwnerName(fa) != "PartialSign" {
+				return
+			}
+			for _, lf := range ssax.Leaves(st.Val, st) {
 				if ssax.IsNilConst(lf.V) {
-					continue // error return
+					continue // error return of the expanded wrapper (the store lies behind its nil-error edge)
 				}
 				n++
-				ex, ok := lf.V.(*ssa.Extract)
-				if ok {
+				if ex, ok := lf.V.(*ssa.Extract); ok {
 					if call, isCall := ex.Tuple.(*ssa.Call); isCall && ex.Index == 0 && ssax.FuncID(ssax.CalleeObj(call)) == "github.com/corestario/kyber/sign/tbls.Sign" {
 						continue
 					}
@@ -132,9 +137,9 @@ func C03(c *Ctx) {
 				}
 				bad = npath(lf.V)
 			}
-		}
-		r.Check(bad == "" && n > 0, "C03/R2", "airgapped.createPartialSign:result", "the partial signature returned is the one just computed by tbls.Sign over the given bytes", c.Pos(fn.Pos()),
-			"a success return yields "+bad+" instead of the result of tbls.Sign: a signature made for other bytes could be returned for this message")
+		})
+		r.Check(bad == "" && n > 0, "C03/R2", "airgapped.createPartialSign:result", "the partial signature recorded is the one just computed by tbls.Sign over the given bytes", c.Pos(fn.Pos()),
+			"a success path records "+bad+" instead of the result of tbls.Sign: a signature made for other bytes could be returned for this message")
 	}
 	// signer's unmarshal source
 	if fn := c.Fn("C03/R2", "airgapped", "Machine", "handleStateSigningAwaitPartialSigns"); fn != nil {
